@@ -281,6 +281,9 @@ class ArrEval:
 
     def _alloc_entry(self, t: Term, idx) -> Term:
         val: Optional[Term] = None
+        shp = self.shape(t)
+        if shp is not None and len(shp) != len(idx):
+            raise NoEntry(f"entry index of rank {len(idx)} into an array of rank {len(shp)}")
         for ev in self.stores.get(t, []):
             tg = ev.data["target"][2]
             ix = tg[1] if tg[0] == "tuple" else (tg,)
@@ -314,6 +317,10 @@ class ArrEval:
                     # may not be the one written - the entry is then unknown, never "still zero"
                     if i is not ROW:
                         raise NoEntry(f"store with a symbolic index may write the entry: {show(tg)[:50]}")
+                    xs_ = self.shape(x)
+                    if xs_ is not None and len(xs_) == 1:
+                        # an index ARRAY (scatter of whole rows): the generic row of the target is the generic row of the value
+                        sub_idx.append(ROW)
             if not ok:
                 continue
             if [g for g in ev.guards if g not in self.base_guards]:
